@@ -133,6 +133,13 @@ func (e *kvElection) heartbeatLoop(ctx context.Context, termToken string) {
 				updateErr = result.err
 			}
 
+			// The wait may have outlasted the term (and a new one may have begun): what
+			// an ended term's attempt came to, success or failure, concerns nobody any
+			// more - in particular a time-out of it must not demote the new term.
+			if !e.IsLeader() || e.Token() != termToken {
+				return
+			}
+
 			heartbeatStartTime := time.Now()
 			if updateErr != nil {
 				log := e.getLogger()
